@@ -30,3 +30,59 @@ def load(reg):
             return [(s2, SV(REAL, mu + sigma * r))]
         return eng.implicit(s, "StatisticsError", z3.Or(p <= 0, p >= 1), cont)
     reg.specfun("dep_NormalDist_inv_cdf", inv_cdf)
+
+
+def load_seqref(reg):
+    """Axiom set 'seqref': facts about sequences of references (z3 Seq(Int)) used by the
+    pub/sub contracts.  nodup_ref is defined by the quantified formula; rm_ref (list.remove:
+    delete the first equal element) is defined by its term.  The derived lemmas (L1-L4) are
+    properties of finite sequences; they are assumed here (trusted, listed in the evidence) --
+    they are exactly Mathlib's List.nodup_append / List.Nodup.erase / List.mem_erase_of_ne."""
+    SI = z3.SeqSort(z3.IntSort())
+    nodup = reg.ufun("nodup_ref", SI, z3.BoolSort())
+    rm = reg.ufun("rm_ref", SI, z3.IntSort(), SI)
+    s, x, y = z3.Const("ax_s", SI), z3.Int("ax_x"), z3.Int("ax_y")
+    U = z3.Unit
+    note = "sequence lemmas over Seq(ref): nodup/append/remove-first (assumed; = Mathlib List.nodup_append, List.Nodup.erase, List.mem_erase_of_ne)"
+    A = lambda f: reg.scoped_axiom("seqref", f, note)
+    # definition of rm_ref
+    i = z3.IndexOf(s, U(x), 0)
+    n = z3.Length(s)
+    A(z3.ForAll([s, x], rm(s, x) == z3.If(z3.Contains(s, U(x)),
+                                           z3.Concat(z3.SubSeq(s, 0, i), z3.SubSeq(s, i + 1, n - i - 1)), s),
+                patterns=[rm(s, x)]))
+    A(nodup(z3.Empty(SI)))
+    A(z3.ForAll([x], nodup(U(x)), patterns=[nodup(U(x))]))
+    # L1: nodup(s ++ [x]) <-> nodup(s) and x not in s
+    A(z3.ForAll([s, x], nodup(z3.Concat(s, U(x))) == z3.And(nodup(s), z3.Not(z3.Contains(s, U(x)))),
+                patterns=[nodup(z3.Concat(s, U(x)))]))
+    # L2: removing from a duplicate-free sequence: x is gone, still duplicate free, one shorter
+    A(z3.ForAll([s, x], z3.Implies(z3.And(nodup(s), z3.Contains(s, U(x))),
+                                   z3.And(z3.Not(z3.Contains(rm(s, x), U(x))), nodup(rm(s, x)),
+                                          z3.Length(rm(s, x)) == z3.Length(s) - 1)),
+                patterns=[rm(s, x)]))
+    # L3: other elements are unaffected by a removal
+    A(z3.ForAll([s, x, y], z3.Implies(y != x, z3.Contains(rm(s, x), U(y)) == z3.Contains(s, U(y))),
+                patterns=[z3.Contains(rm(s, x), U(y))]))
+    # L4: membership in an appended sequence
+    A(z3.ForAll([s, x, y], z3.Contains(z3.Concat(s, U(x)), U(y)) == z3.Or(z3.Contains(s, U(y)), y == x),
+                patterns=[z3.Contains(z3.Concat(s, U(x)), U(y))]))
+    # L5: length 0 iff empty; an element of a sequence makes it non-empty
+    A(z3.ForAll([s, x], z3.Implies(z3.Contains(s, U(x)), z3.Length(s) > 0), patterns=[z3.Contains(s, U(x))]))
+    # L6/L7: positions in a duplicate-free sequence
+    j = z3.Int("ax_j")
+    A(z3.ForAll([s, j], z3.Implies(z3.And(nodup(s), 0 <= j, j < z3.Length(s)),
+                                   z3.IndexOf(s, U(s[j]), 0) == j), patterns=[z3.IndexOf(s, U(s[j]), 0)]))
+    A(z3.ForAll([s, x], z3.Implies(z3.Contains(s, U(x)),
+                                   z3.And(s[z3.IndexOf(s, U(x), 0)] == x, z3.IndexOf(s, U(x), 0) >= 0,
+                                          z3.IndexOf(s, U(x), 0) < z3.Length(s))),
+                patterns=[z3.IndexOf(s, U(x), 0)]))
+    reg.trust(note)
+
+
+_load0 = load
+
+
+def load(reg):          # noqa: F811
+    _load0(reg)
+    load_seqref(reg)
